@@ -397,10 +397,13 @@ theorem parseR6rsChar_rel {fuel : Nat} : Rel (parseR6rsChar fuel) := by
 theorem asChar_rel {n : Nat} : Rel (asChar n) := by
   unfold asChar; rel_wp []
 
+theorem asEscapedChar_rel {n : Nat} : Rel (asEscapedChar n) := by
+  unfold asEscapedChar; rel_wp [asChar_rel]
+
 theorem decodeElispCharEscape_rel {fuel : Nat} : Rel (decodeElispCharEscape fuel) := by
   unfold decodeElispCharEscape
   rel_wp [nextOrEofChar_rel, nextOrEof_rel, decodeElispHexEscape_rel, decodeElispUniEscape_rel,
-    decodeElispOctalEscape_rel, asChar_rel, decodeUtf8Sequence_rel]
+    decodeElispOctalEscape_rel, asChar_rel, asEscapedChar_rel, decodeUtf8Sequence_rel]
 
 theorem parseElispChar_rel {fuel : Nat} : Rel (parseElispChar fuel) := by
   unfold parseElispChar
